@@ -173,6 +173,7 @@ class SurfaceSubdivision(Logger):
             bary[iF] = len(newMeshData.vertices)
             newMeshData.vertices.append(pS)
 
+        new_edges = set()
         for f in self.mesh.id_faces:
             A,B,C = self.mesh.faces[f]
             mAB = half[keyify(A,B)]
@@ -186,6 +187,9 @@ class SurfaceSubdivision(Logger):
                 [C, mCA, S, mBC],
             ]:
                 newMeshData.faces.append(new_face)
+                for i in range(4):
+                    new_edges.add(keyify(new_face[i], new_face[(i+1)%4]))
+        newMeshData.edges += list(new_edges)
         self.mesh = newMeshData
 
 @allowed_mesh_types(SurfaceMesh)
